@@ -1,6 +1,7 @@
 import AITB.Model.Proto
 import AITB.Model.Experience
 import AITB.Model.ExperienceCfg
+import AITB.Gen.Constants
 open AITB AITB.Exp
 
 /-
@@ -292,11 +293,109 @@ def tsync : P String := do
   P.eof
   pure v.render
 
+/-- `C07 sethist <variant> <np> <w> <A> <junk> <nops> { op }` — experience with table setters
+      r p s1 rew | cnt[w] N mean M2            record
+      R          | np × (cnt[w] N mean M2)     reset
+      V np×cnt[w]| dump                         setVisitsTable
+      M t np×x   | dump                         setRewardMatrix (t = 1: element-wise sparse overload, tolerance drop)
+      Q t np×x   | dump                         setM2Matrix
+      F          | np × (row[w] rew)            a MaximumLikelihoodModel constructed now with sync = true -/
+structure SetSt where
+  comp : String
+  np : Nat
+  w : Nat
+  a : Nat
+  cfg : Cfg
+  es : List EPair
+  gs : List EGhost
+  v : Verdict
+
+def checkE (st : SetSt) (site : String) (i : Nat) (o : ExpObs) : Verdict :=
+  let e := st.es.getD i default
+  let want := ((st.gs.getD i default).current st.w)
+  let c := st.comp ++ "." ++ site
+  let v := st.v
+  let v := v.diffIf (o.cnt != e.cnt || o.n != e.cell.n) s!"{c} visits pair={i} model={e.cnt}/{e.cell.n} impl={o.cnt}/{o.n}"
+  let v := v.diffIf (!(xClose o.mean e.cell.mean)) s!"{c} reward pair={i} model={ratStr e.cell.mean} impl={showX o.mean}"
+  let v := v.diffIf (!(xClose o.m2 e.cell.m2)) s!"{c} M2 pair={i} model={ratStr e.cell.m2} impl={showX o.m2}"
+  let v := v.failIf (o.cnt != want.cnt) s!"{c} visits_not_loaded_plus_recorded pair={i} impl={o.cnt} want={want.cnt}"
+  let v := v.failIf (o.n != want.cell.n) s!"{c} visitsSum_not_loaded_plus_recorded pair={i} impl={o.n} want={want.cell.n}"
+  let v := v.failIf (!(xClose o.mean want.cell.mean)) s!"{c} mean_not_combined_statistics pair={i} impl={showX o.mean} want={ratStr want.cell.mean}"
+  v.failIf (!(xClose o.m2 want.cell.m2)) s!"{c} m2_not_combined_statistics pair={i} impl={showX o.m2} want={ratStr want.cell.m2}"
+
+def setApply (st : SetSt) (tol : Option Rat) (ops : List EOp) : SetSt :=
+  { st with es := mapIdxFrom (fun i (e : EPair) => e.step tol (ops.getD i .nop)) 0 st.es,
+            gs := mapIdxFrom (fun i (g : EGhost) => g.step tol st.w (ops.getD i .nop)) 0 st.gs }
+
+def setDump (st : SetSt) (site : String) : P SetSt := do
+  let os ← P.rep (pExp st.w) st.np
+  let r := os.foldl (fun (acc : SetSt × Nat) o => ({ acc.1 with v := checkE acc.1 site acc.2 o }, acc.2 + 1)) (st, 0)
+  pure r.1
+
+def setOp (st : SetSt) : P SetSt := do
+  let t ← P.tok
+  let tolOf := fun (b : Bool) => if b then some AITB.Gen.equalToleranceSmall else none
+  match t with
+  | "r" => do
+      let p ← P.nat; let s1 ← P.nat; let r ← P.q
+      let o ← pExp st.w
+      let st := setApply st none ((List.range st.np).map (fun i => if i == p then EOp.record s1 r else .nop))
+      pure { st with v := checkE st "record" p o }
+  | "R" => do
+      let st := setApply st none (List.replicate st.np .reset)
+      setDump st "reset"
+  | "V" => do
+      let rows ← P.rep (P.rep P.nat st.w) st.np
+      let st := setApply st none (rows.map EOp.setCnt)
+      setDump st "setVisitsTable"
+  | "M" => do
+      let b ← P.bool; let xs ← P.rep P.q st.np
+      let st := setApply st (tolOf b) (xs.map EOp.setMean)
+      setDump st "setRewardMatrix"
+  | "Q" => do
+      let b ← P.bool; let xs ← P.rep P.q st.np
+      let st := setApply st (tolOf b) (xs.map EOp.setM2)
+      setDump st "setM2Matrix"
+  | "F" => do
+      let ms ← P.rep (pMod st.w) st.np
+      let r := ms.foldl (fun (acc : Verdict × Nat) o =>
+        let i := acc.2
+        let e := st.es.getD i default
+        let dfl := if st.a == 0 then 0 else i / st.a
+        let pr : Pair := { (Pair.init st.w dfl i) with cell := e.cell, cnt := e.cnt }
+        let q := pr.ctor st.cfg true
+        let want := ((st.gs.getD i default).current st.w)
+        let c := "MaximumLikelihoodModel.afterSetters"
+        let v := acc.1
+        let v := v.diffIf ((List.range st.w).any (fun k => !(xClose (o.row.getD k .nan) (nthQ q.row k)))) s!"{c} row pair={i} model={q.row.map ratStr} impl={o.row.map showX}"
+        let v := v.diffIf (!(xClose o.rew q.rew)) s!"{c} reward pair={i} model={ratStr q.rew} impl={showX o.rew}"
+        let v := if want.cell.n == 0 then
+            v.failIf ((List.range st.w).any (fun k => !(xClose (o.row.getD k .nan) (if k == dfl then 1 else 0))) || !(xClose o.rew 0)) s!"{c} unvisited_row_not_default pair={i}"
+          else
+            let v := v.failIf ((List.range st.w).any (fun k => !(xClose (o.row.getD k .nan) ((nthN want.cnt k : Rat) / (want.cell.n : Rat))))) s!"{c} row_not_visits_over_visitsSum pair={i} impl={o.row.map showX}"
+            v.failIf (!(xClose o.rew want.cell.mean)) s!"{c} reward_not_mean pair={i} impl={showX o.rew}"
+        (v, i + 1)) (st.v, 0)
+      pure { st with v := r.1 }
+  | _ => P.fail
+
+def sethist : P String := do
+  let vname ← P.tok; let np ← P.nat; let w ← P.nat; let a ← P.nat; let junk ← P.q; let nops ← P.nat
+  let comp := if vname == "sparse-set" then "MDP::SparseExperience" else "MDP::Experience"
+  let st0 : SetSt := { comp := comp, np := np, w := w, a := a, cfg := cfgDense junk,
+                       es := List.replicate np (EPair.init w), gs := List.replicate np { base := EPair.init w, since := [] }, v := { tag := "setters" } }
+  let rec loop : Nat → SetSt → P SetSt
+    | 0, st => pure st
+    | n+1, st => do let st' ← setOp st; loop n st'
+  let st ← loop nops st0
+  P.eof
+  pure st.v.render
+
 def handle (toks : List String) : String :=
   let r := match toks with
     | "hist" :: rest => P.run hist rest
     | "thompson" :: rest => P.run thompson rest
     | "tsync" :: rest => P.run tsync rest
+    | "sethist" :: rest => P.run sethist rest
     | _ => none
   r.getD "bad-op"
 
